@@ -386,6 +386,46 @@ func init() {
 		nref := ite("(= (s_ref "+a[0].T+") 0)", "0", ref)
 		return Val{T: e.sc.define("clone", "Slice", "(mk_slice "+nref+" (s_off "+a[0].T+") (s_len "+a[0].T+") (s_len "+a[0].T+"))"), S: "Slice", GoT: r}, true
 	}
+	// maps.Values / maps.Keys (x/exp and std-lib collectors): a fresh slice holding each present key's value (key)
+	// exactly once, in unspecified order - a bijection between the present keys and the indices of the result.
+	mapsCollect := func(values bool) stdHandler {
+		return func(e *Engine, fc *fnCtx, st *State, c *ssa.CallCommon, a []Val, r types.Type) (Val, bool) {
+			m, ok := c.Args[0].Type().Underlying().(*types.Map)
+			rs, ok2 := r.Underlying().(*types.Slice)
+			if !ok || !ok2 {
+				return Val{}, false
+			}
+			vh, vs, dh, ds := e.mapHeapNames(m)
+			ks := e.sortOf(m.Key())
+			mref := a[0].T
+			domArr := sel(e.heapIn(st, dh, ds), mref)
+			has := func(k string) string { return "(and (not (= " + mref + " 0)) (select " + domArr + " " + k + "))" }
+			vals := sel(e.heapIn(st, vh, vs), mref)
+			hn, hs := e.sliceHeapName(rs.Elem())
+			ref := e.newRef(st, "mapscollect")
+			arr := e.sc.declareConst("mv_arr", "(Array Int "+e.sortOf(rs.Elem())+")")
+			e.setHeapIn(st, hn, hs, store(e.heapIn(st, hn, hs), ref, arr))
+			e.logStore(hn, ref)
+			ln := e.sc.declareConst("mv_len", "Int")
+			idx := e.sc.fresh("mv_idx")
+			key := e.sc.fresh("mv_key")
+			e.sc.emit("(declare-fun " + idx + " (" + ks + ") Int)")
+			e.sc.emit("(declare-fun " + key + " (Int) " + ks + ")")
+			elemOf := func(k string) string {
+				if values {
+					return sel(vals, k)
+				}
+				return k
+			}
+			e.assume(st, and("(>= "+ln+" 0)",
+				"(forall ((k "+ks+")) (! (=> "+has("k")+" (and (<= 0 ("+idx+" k)) (< ("+idx+" k) "+ln+") (= ("+key+" ("+idx+" k)) k) (= (select "+arr+" (ix 0 ("+idx+" k))) "+elemOf("k")+"))) :pattern ((select "+domArr+" k)) :pattern (("+idx+" k))))",
+				"(forall ((i Int)) (! (=> (and (<= 0 i) (< i "+ln+")) (and "+has("("+key+" i)")+" (= ("+idx+" ("+key+" i)) i) (= (select "+arr+" (ix 0 i)) "+elemOf("("+key+" i)")+"))) :pattern ((select "+arr+" (ix 0 i))) :pattern (("+key+" i))))"))
+			e.w.Trusted["maps.Values/maps.Keys return each present key's value (key) exactly once, in unspecified order"] = true
+			return Val{T: e.sc.define("mv", "Slice", "(mk_slice "+ref+" 0 "+ln+" "+ln+")"), S: "Slice", GoT: r}, true
+		}
+	}
+	H["golang.org/x/exp/maps.Values"] = mapsCollect(true)
+	H["golang.org/x/exp/maps.Keys"] = mapsCollect(false)
 	// slices.SortFunc with a specified comparator: the result is a sorted permutation of the input
 	H["slices.SortFunc"] = func(e *Engine, fc *fnCtx, st *State, c *ssa.CallCommon, a []Val, r types.Type) (Val, bool) {
 		sl, ok := c.Args[0].Type().Underlying().(*types.Slice)
@@ -587,7 +627,9 @@ func init() {
 		return a[0], true
 	}
 	baseFn := func(e *Engine, fc *fnCtx, st *State, c *ssa.CallCommon, a []Val, r types.Type) (Val, bool) {
-		v := e.freshVal("base", tString)
+		// path.Base is a function of its argument; the result is never empty
+		e.sc.declareFun("pathBase", []string{"String"}, "String")
+		v := Val{T: e.sc.define("base", "String", "(pathBase "+a[0].T+")"), S: "String", GoT: tString}
 		e.assume(st, "(> (str.len "+v.T+") 0)")
 		return v, true
 	}
